@@ -22,7 +22,7 @@ ANCHORS = ["MPRenderer.draw_scenario", "MPRenderer.draw_dynamic_obstacle", "MPRe
            "MPRenderer.draw_phantom_obstacle", "MPRenderer.draw_environment_obstacle", "MPRenderer._draw_occupancy",
            "MPRenderer.draw_lanelet_network", "MPRenderer.draw_planning_problem_set", "MPRenderer.render",
            "BaseParam.__setattr__", "MPRenderer.draw_trajectory", "MPRenderer.draw_goal_region"]
-REQUIRED = ["lights-at-selected-time.checked", "lights-at-selected-time.state-differs-from-step-0", "lights-at-selected-time.route-parameters-passed-to-scenario.draw", "lights-at-selected-time.route-second-frame-of-a-reused-renderer", "lights-at-selected-time.route-parameters-passed-to-light.draw", "trajectory-windows.renderer-focused-on-the-obstacle", "totality.draw", "totality.render", "totality.rasterised", "types.icon", "types.shape", "exactness.static-with-later-initial-time-step", "flag.traffic_light.show_label", "totality.all-boolean-parameters-sampled", "renderer.plot-limits", "renderer.focus-obstacle", "renderer.lanelets-in-view-required", "exactness.checked", "exactness.dynamic-trajectory",
+REQUIRED = ["propagation.after-a-nested-group-was-replaced", "lights-at-selected-time.checked", "lights-at-selected-time.state-differs-from-step-0", "lights-at-selected-time.route-parameters-passed-to-scenario.draw", "lights-at-selected-time.route-second-frame-of-a-reused-renderer", "lights-at-selected-time.route-parameters-passed-to-light.draw", "trajectory-windows.renderer-focused-on-the-obstacle", "totality.draw", "totality.render", "totality.rasterised", "types.icon", "types.shape", "exactness.static-with-later-initial-time-step", "flag.traffic_light.show_label", "totality.all-boolean-parameters-sampled", "renderer.plot-limits", "renderer.focus-obstacle", "renderer.lanelets-in-view-required", "exactness.checked", "exactness.dynamic-trajectory",
             "exactness.dynamic-set", "exactness.static", "exactness.phantom", "exactness.environment",
             "exactness.window-before-horizon", "exactness.window-after-horizon", "exactness.no-occupancy-at-begin",
             "lanelets.all", "lanelets.subset", "lanelets.empty-list", "propagation.root", "propagation.nested",
@@ -494,8 +494,22 @@ def run(ctx):
         gs = groups(P)
         seq = []
         last = {}
+        replaced = False
+        if i % 4 == 1:
+            # a nested group is REPLACED by a new group object of its class (params.dynamic_obstacle = DynamicObstacleParams()):
+            # from then on the new object is the nested group, and what is set above it reaches it
+            pth_r, g_r = gs[1 + (i // 4) % (len(gs) - 1)]
+            parent = dict(gs)[pth_r.rsplit(".", 1)[0]]
+            try:
+                setattr(parent, pth_r.rsplit(".", 1)[1], type(g_r)())
+                replaced = True
+                seq.append([pth_r, "<replaced by a new %s>" % type(g_r).__name__, None])
+                ctx.feature("propagation.after-a-nested-group-was-replaced")
+            except Exception as e:  # noqa
+                ctx.violation("C19/propagation/replacing-a-group-raises-%s" % type(e).__name__, repr(e)[:200], {"group": pth_r})
+            gs = groups(P)
         for step in range(rng.randint(1, 8)):
-            path, g = gs[0] if step == 0 and i % 3 == 0 else rng.choice(gs)
+            path, g = gs[0] if step == 0 and (i % 3 == 0 or replaced) else rng.choice(gs)
             names = [nm for nm in POOL if any(declares(x, nm) for pth, x in gs if pth.startswith(path))]
             if not names:
                 continue
